@@ -387,9 +387,6 @@ impl Property for TamperGcOutput {
                 }
                 let Some(p) = find(a) else { continue };
                 let ents = driver::dump_sst(&p).map_err(|e| ("harness:dump".to_string(), e))?;
-                if ents.len() < 2 {
-                    continue;
-                }
                 for e in ents.iter() {
                     if must.contains(&(e.0.clone(), e.1)) {
                         victims.push((a.clone(), e.clone(), ents.clone()));
@@ -400,23 +397,34 @@ impl Property for TamperGcOutput {
                 o.label("gc-has-no-removable-required-entry");
                 return Ok(());
             }
-            let (old_digest, victim, ents) = victims[vcore::gens::sel(tsel, victims.len())].clone();
-            let _ = lsel;
+            // a third of the cases aim at outputs with a single entry (the whole output is lost)
+            let singles: Vec<_> = victims.iter().filter(|v| v.2.len() == 1).cloned().collect();
+            let pool = if !singles.is_empty() && vcore::gens::sel(lsel, 3) == 2 { singles } else { victims };
+            let (old_digest, victim, ents) = pool[vcore::gens::sel(tsel, pool.len())].clone();
             o.nontrivial = true;
             o.label("tampered-gc-output");
             // rebuild the output without the victim
             let _ = std::fs::remove_dir_all(&scratch);
             copy_tree(&root, &scratch);
             let kept: Vec<vcore::refcursor::Entry> = ents.iter().filter(|e| **e != victim).cloned().collect();
-            let tmp = scratch.join("tmp").join("tampered.sst");
-            let opts = vsst::tables::BuildOpts { bytes_ri: cfg.bytes_ri, pairs_ri: cfg.pairs_ri, block_size: cfg.target_block_size };
-            let table = vsst::tables::build_sst(&tmp, &kept, &opts).map_err(|e| ("harness:rebuild".to_string(), format!("{e:?}")))?;
-            let new_digest = table.fast_setsum().hexdigest();
-            drop(table);
-            for dir in ["sst", "trash"] {
-                let _ = std::fs::copy(&tmp, scratch.join(dir).join(format!("{new_digest}.sst")));
-            }
-            let _ = std::fs::remove_file(&tmp);
+            // When the victim was the only entry the output vanishes altogether: the store never
+            // writes an empty sst, so the tampered history simply does not mention the file.
+            let vanish = kept.is_empty();
+            o.label(if vanish { "tamper:whole-output-lost" } else { "tamper:one-entry-of-several-lost" });
+            let new_digest = if vanish {
+                String::new()
+            } else {
+                let tmp = scratch.join("tmp").join("tampered.sst");
+                let opts = vsst::tables::BuildOpts { bytes_ri: cfg.bytes_ri, pairs_ri: cfg.pairs_ri, block_size: cfg.target_block_size };
+                let table = vsst::tables::build_sst(&tmp, &kept, &opts).map_err(|e| ("harness:rebuild".to_string(), format!("{e:?}")))?;
+                let d = table.fast_setsum().hexdigest();
+                drop(table);
+                for dir in ["sst", "trash"] {
+                    let _ = std::fs::copy(&tmp, scratch.join(dir).join(format!("{d}.sst")));
+                }
+                let _ = std::fs::remove_file(&tmp);
+                d
+            };
             let e = setsum_of(&victim);
             // patch the history: rename the digest everywhere from the tampered transaction on, grow
             // its discard, shrink its output, and shift everything later
@@ -456,6 +464,9 @@ impl Property for TamperGcOutput {
                                 this_txn_removes_it = true;
                             }
                             p.payload = new_digest.clone();
+                            if vanish {
+                                p.action = '\0'; // dropped when the fragment is rendered
+                            }
                         }
                     }
                     let shift = |p: &mut ParsedLine, by: setsum::Setsum, plus: bool| {
@@ -492,6 +503,7 @@ impl Property for TamperGcOutput {
                         }
                     }
                 }
+                lines.retain(|l| l.as_ref().map(|p| p.action != '\0').unwrap_or(true));
                 let _ = std::fs::remove_file(&path);
                 std::fs::write(&path, render(&lines)).map_err(|e| ("harness:io".to_string(), e.to_string()))?;
             }
